@@ -60,6 +60,20 @@ impl DepthTracker {
     const MAX_QUERY_DEPTH: u8 = 8; // arbitrarily chosen number...
 }
 
+/// The clock of the caching client.
+#[cfg(not(hickory_dns_verif))]
+#[inline]
+fn client_now() -> Instant {
+    Instant::now()
+}
+
+/// The clock of the caching client; with `--cfg hickory_dns_verif` it follows tokio's
+/// (pausable) clock.
+#[cfg(hickory_dns_verif)]
+fn client_now() -> Instant {
+    tokio::time::Instant::now().into_std()
+}
+
 #[derive(Clone, Debug)]
 #[doc(hidden)]
 pub struct CachingClient<C>
@@ -84,6 +98,14 @@ where
             client,
             preserve_intermediates,
         )
+    }
+
+    /// Verification hook, compiled only with `--cfg hickory_dns_verif`: construct the client
+    /// over a cache with a chosen TTL configuration.
+    #[cfg(hickory_dns_verif)]
+    #[doc(hidden)]
+    pub fn verif_with_cache(cache: ResponseCache, client: C, preserve_intermediates: bool) -> Self {
+        Self::with_cache(cache, client, preserve_intermediates)
     }
 
     pub(crate) fn with_cache(
@@ -264,7 +286,7 @@ where
 
     /// Check if this query is already cached
     fn lookup_from_cache(&self, query: &Query) -> Option<Result<Lookup, NetError>> {
-        let now = Instant::now();
+        let now = client_now();
         let message_res = self.cache.get(query, now)?;
         let message = match message_res {
             Ok(message) => message,
@@ -495,12 +517,12 @@ where
         message.add_answers(lookup.answers().iter().cloned());
         message.add_authorities(lookup.authorities().iter().cloned());
         message.add_additionals(lookup.additionals().iter().cloned());
-        self.cache.insert(query, Ok(message), Instant::now());
+        self.cache.insert(query, Ok(message), client_now());
         Ok(lookup)
     }
 
     fn cache(&self, query: Query, result: Result<Message, NetError>) -> Result<Lookup, NetError> {
-        let now = Instant::now();
+        let now = client_now();
         let result = match result {
             Ok(mut message) => {
                 // Clamp record TTLs before building the Lookup so that the first
